@@ -90,10 +90,18 @@ Inductive err :=
 | E_not_integer           (* "not an integer" (common/int.rs, discriminant_type.rs) *)
 | E_int_parse.            (* a core::num::ParseIntError message *)
 
+(** The reachable panic sites of the real macro that the model has to reproduce
+    (`unwrap()` on None, `unreachable!()`, out-of-range `insert_str`, ...).  On the current
+    tree there is none -- the only one ever found, the string surgery of
+    hash/panic.rs and partial_eq/panic.rs, was repaired -- so the type is EMPTY:
+    [Panic] cannot be constructed and "the macro never panics" is a typing fact about the
+    model (Properties/C17.v).  Following the code by adding a site here breaks that theorem. *)
+Inductive panic_site : Set := .
+
 Inductive outcome (A : Type) :=
 | Ok (a : A)
 | Err (e : err)
-| Panic (site : string)
+| Panic (site : panic_site)
 | OutOfDomain (why : string).
 Arguments Ok {A} a.
 Arguments Err {A} e.
